@@ -570,6 +570,7 @@ func checkC08(w *World, r *Report) {
 	checkShortCircuit(w, r)
 	checkNameShortcut(w, r)
 	checkPrecedenceDescent(w, r)
+	checkDecimalLiterals(w, r)
 	checkNumberFormatting(w, r)
 	checkMembershipEquality(w, r, evalCases)
 	checkRelationalNumericFirst(w, r, evalCases)
